@@ -19,8 +19,8 @@ var kinds = []kind{
 	{"ptr", "*int", false, []string{"p", "nil", "new(int)", "&loc", "gPtr", "m[\"k\"]", "(*int)(unsafe.Pointer(u))", "(*int)(nil)", "lib.NewPtr()", "lib.MaybePtr(c)", "lib.NilPtr()", "idPtr(p)", "func() *int { return nil }()", "st.P", "(&st).P"}, "new(int)"},
 	{"slice", "[]int", false, []string{"s", "nil", "[]int{}", "make([]int, n&3)", "s[:0]", "s[1:]", "s[:0:0]", "s[0:n&1]", "append(s, 1)", "append([]int(nil), s...)", "append(s[:0:0])", "arr[:]", "arr[:0]", "gSl", "unsafe.Slice(p, n&1)", "lib.Sl(c)", "lib.NilSl()", "st.S", "[]int(lib.NamedSl(s))"}, "[]int{1}"},
 	{"map", "map[string]*int", false, []string{"m", "nil", "map[string]*int{}", "make(map[string]*int)", "gMap", "lib.Map(c)"}, "map[string]*int{}"},
-	{"any", "any", true, []string{"x", "nil", "any(p)", "any(s)", "any(e)", "any(n)", "lib.Iface(c)", "lib.TypedNil()", "any((*int)(nil))", "any(new(int))", "st.X", "genAny[error](e)", "genAny[any](x)", "genAny[*int](p)"}, "any(1)"},
-	{"err", "error", true, []string{"e", "nil", "error((*lib.E)(nil))", "&lib.E{}", "errors.New(\"x\")", "lib.Err(c)", "lib.TypedNilErr()", "lib.NeverNilErr()", "gErr", "genErr[error](e)", "genErr[*lib.E](nil)", "genErr(&lib.E{})"}, "errors.New(\"nn\")"},
+	{"any", "any", true, []string{"x", "nil", "any(p)", "any(s)", "any(e)", "any(n)", "lib.Iface(c)", "lib.TypedNil()", "any((*int)(nil))", "any(new(int))", "st.X", "genAny[error](e)", "genAny[any](x)", "genAny[*int](p)", "genAnyE[error](e)", "genAnyE[*lib.E](nil)", "genAnyE(&lib.E{})"}, "any(1)"},
+	{"err", "error", true, []string{"e", "nil", "error((*lib.E)(nil))", "&lib.E{}", "errors.New(\"x\")", "lib.Err(c)", "lib.TypedNilErr()", "lib.NeverNilErr()", "gErr", "genErr[error](e)", "genErr[*lib.E](nil)", "genErr(&lib.E{})", "genErrW[error](e)", "genErrW[*lib.E](nil)"}, "errors.New(\"nn\")"},
 	{"uptr", "unsafe.Pointer", false, []string{"unsafe.Pointer(p)", "unsafe.Pointer(u)", "unsafe.Add(unsafe.Pointer(p), n&1)", "nil", "unsafe.Pointer(uintptr(0))", "unsafe.Pointer(&loc)"}, "unsafe.Pointer(new(int))"},
 	{"fn", "func() int", false, []string{"f", "nil", "func() int { return n }", "lib.Fn(c)", "st.F", "p2.Get"}, "func() int { return 1 }"},
 	{"chan", "chan int", false, []string{"ch", "nil", "make(chan int)", "make(chan int, 1)", "lib.Ch(c)"}, "make(chan int)"},
@@ -222,7 +222,7 @@ func helpers() string {
 		fmt.Fprintf(&b, "var g%s %s\n\nfunc id%s(v %s) %s { return v }\n\n", k.name, k.typ, k.name, k.typ, k.typ)
 	}
 	b.WriteString("func idPtr(v *int) *int { return v }\n\n// dec counts n down and reports whether to go round again.\nfunc dec(n *int) bool { *n--; return *n > 0 }\n\n")
-	b.WriteString("// generic relays: T may be instantiated with an interface type, whose nil converts to a nil interface\nfunc genAny[T any](x T) any { return x }\n\nfunc genErr[T error](x T) error { return x }\n")
+	b.WriteString("// generic relays: T may be instantiated with an interface type, whose nil converts to a nil interface\nfunc genAny[T any](x T) any { return x }\n\nfunc genErr[T error](x T) error { return x }\n\n// the constraint differs from the result type, so the conversion is a MakeInterface of a type-parameter value\nfunc genAnyE[T error](x T) any { return x }\n\nfunc genErrW[T interface {\n\terror\n\tcomparable\n}](x T) error {\n\treturn x\n}\n")
 	return b.String()
 }
 
